@@ -49,6 +49,37 @@ func httpResponse(fr *frame, code int, badBody bool) value {
 	return tuple{&cell, nilError()}
 }
 
+// httpReadAll reads an io.Reader value to its end through its own Read method (bounded).
+func httpReadAll(fr *frame, r iface) []value {
+	var read value
+	ms := E.prog.MethodSets.MethodSet(r.t)
+	for i := 0; i < ms.Len(); i++ {
+		if ms.At(i).Obj().Name() == "Read" {
+			read = E.prog.MethodValue(ms.At(i))
+		}
+	}
+	if read == nil {
+		E.inconclusive("http model: request body without Read method: " + r.t.String())
+	}
+	var out []value
+	for k := 0; k < 64; k++ {
+		buf := make([]value, 512)
+		for i := range buf {
+			buf[i] = byteConsts[0]
+		}
+		res := callValue(fr, 0, read, []value{r.v, buf}).(tuple)
+		n := int(concInt(res[0], true))
+		out = append(out, buf[:n]...)
+		if e, ok := res[1].(iface); ok && e.t != nil {
+			return out
+		}
+		if n == 0 {
+			return out
+		}
+	}
+	return out
+}
+
 func (e *Engine) http() *httpState {
 	if e.httpSt == nil {
 		e.httpSt = &httpState{lastBatch: map[int]int{}, maxFail: 2}
@@ -99,6 +130,10 @@ func init() {
 		st := zero(t).(structure)
 		st[fieldIndex(t, "Method")] = args[0]
 		st[fieldIndex(t, "Host")] = args[1] // the URL text (only used by the model of Client.Do)
+		if b, ok := args[2].(iface); ok && b.t != nil {
+			// as net/http does: the body reader wrapped into a ReadCloser
+			st[fieldIndex(t, "Body")] = callPkgFunc(fr, "io", "NopCloser", []value{b})
+		}
 		ht := t.Underlying().(*types.Struct).Field(fieldIndex(t, "Header")).Type()
 		st[fieldIndex(t, "Header")] = newMap(ht.Underlying().(*types.Map))
 		cell := value(st)
@@ -115,6 +150,23 @@ func init() {
 				if us, conc := u.concrete(); conc && us != "" && !stringsHasSuffix(us, "/metrics") {
 					return httpResponse(fr, 200, false)
 				}
+			}
+		}
+		// the transport reads the request body to its end: what the peer receives is what the body delivers NOW
+		// (a body already consumed by an earlier attempt delivers nothing); the batch this attempt carries is
+		// identified by that content (CreateMsg model: one byte = batch id), -1 if it is anything else
+		sentBatch := -1
+		if rq, ok := args[1].(*value); ok && rq != nil {
+			rt := pkgType("net/http", "Request")
+			if b, ok := (*rq).(structure)[fieldIndex(rt, "Body")].(iface); ok && b.t != nil {
+				got := httpReadAll(fr, b)
+				if len(got) == 1 {
+					if t, ok := got[0].(*Term); ok && t.IsConst() {
+						sentBatch = int(t.C)
+					}
+				}
+			} else {
+				sentBatch = h.lastBatch[fr.g.id] // requests built without the NewRequest model
 			}
 		}
 		outcome := 0
@@ -138,7 +190,7 @@ func init() {
 			// the peer sends (part of) a response and then stalls: the exchange only ends if the client has an
 			// overall deadline (http.Client.Timeout); without one the caller is stuck for good
 			h.failures++
-			h.attempts = append(h.attempts, httpAttempt{g: fr.g.id, batch: h.lastBatch[fr.g.id], outcome: 2})
+			h.attempts = append(h.attempts, httpAttempt{g: fr.g.id, batch: sentBatch, outcome: 2})
 			ct := pkgType("net/http", "Client")
 			cl := (*args[0].(*value)).(structure)
 			to := cl[fieldIndex(ct, "Timeout")].(*Term)
@@ -150,7 +202,7 @@ func init() {
 		if outcome != 0 {
 			h.failures++
 		}
-		h.attempts = append(h.attempts, httpAttempt{g: fr.g.id, batch: h.lastBatch[fr.g.id], outcome: outcome})
+		h.attempts = append(h.attempts, httpAttempt{g: fr.g.id, batch: sentBatch, outcome: outcome})
 		if outcome == 2 {
 			return tuple{(*value)(nil), mkError("Post: connection reset by peer (verif http model)")}
 		}
@@ -171,8 +223,8 @@ func init() {
 		h := E.http()
 		var out []value
 		for _, at := range h.attempts {
-			if at.outcome != 0 {
-				continue
+			if at.outcome != 0 || at.batch < 0 || at.batch >= len(h.batches) {
+				continue // failed, or the peer received something that is not a batch (e.g. an empty body)
 			}
 			for _, md := range h.batches[at.batch] {
 				out = append(out, termsToSlice(mdName(md).b)...)
